@@ -1,7 +1,159 @@
-(* C08 - property theorems only; proofs live in Proofs/GeomProofs.v. *)
-From Coq Require Import List Bool ZArith QArith.
-From Similari Require Import Base.Num Model.Geom Proofs.GeomProofs.
-Import ListNotations.
+(* C08 - Oriented-box intersection and IoU; pre-filter soundness.
+   Property theorems only; the proofs live in Proofs/GeomProofs.v (exact rationals, Qops) and Proofs/GeomProofsR.v
+   (one statement over the reals).  The model is Model/Geom.v; [c = cos, s = sin] are inputs of a box, and a
+   statement that involves a rotation assumes  c^2 + s^2 = 1  ([unit_dir]).
 
-Theorem clip_by_nothing : forall subj : list qpt, sh_clip Qops subj [] = subj.
-Proof. exact sh_clip_nil_clip. Qed.
+   FULL STATEMENT THAT IS NOT PROVED (kept visible; see iou_exact_partial below):
+
+     clip_area_eq_ref :
+       forall l r : qbox, valid_box l -> valid_box r -> unit_dir l -> unit_dir r ->
+         clip_area Qops (rect_vertices Qops l) (rect_vertices Qops r) ==
+         inter_area_ref Qops (rect_vertices Qops l) (rect_vertices Qops r)
+
+   (the Sutherland-Hodgman area equals the independent exact reference - vertices of each rectangle inside the
+   other + edge crossings, sorted around their centroid, shoelace - for boxes rotated in general position), and
+   with it the symmetry and the range [0,1] of the rotated IoU.  What is missing is a convex-polygon area theory
+   (area of an intersection as a measure; invariance of the shoelace sum under the insertion/removal of the clip
+   vertices).  The link is instead established case by case: Qeq_bool (clip area) (inter_area_ref) is evaluated
+   inside coqc on every pair the check sends to the model (tools/props/c08.py), and the implementation is compared
+   with an exact convex-hull reference on every generated pair. *)
+From Coq Require Import List Bool ZArith QArith Reals.
+From Similari Require Import Base.Num Model.Geom Proofs.GeomProofs Proofs.GeomProofsR.
+Import ListNotations.
+Open Scope Q_scope.
+
+(* the rectangle of a box has area aspect * height^2 (= the union term of the IoU) *)
+Theorem rect_area :
+  forall b : qbox, valid_box b -> unit_dir b ->
+    shoelace Qops (rect_vertices Qops b) == box_area Qops b.
+Proof. exact rect_area_unit. Qed.
+
+(* the rectangle is convex and clockwise: every vertex is on the inner side of every edge *)
+Theorem rect_clockwise_convex :
+  forall b : qbox, valid_box b ->
+    forall e, In e (edges Qops (rect_vertices Qops b)) -> all_in (fst e) (snd e) (rect_vertices Qops b).
+Proof. exact rect_all_inside. Qed.
+
+(* clipping commutes with a common translation / rotation of both polygons (vertex lists up to ==) *)
+Theorem clip_translate :
+  forall dx dy p p' q q',
+    simL 1 0 dx dy p p' -> simL 1 0 dx dy q q' -> simL 1 0 dx dy (sh_clip Qops p q) (sh_clip Qops p' q').
+Proof. exact clip_translate_lemma. Qed.
+
+Theorem clip_rotate :
+  forall c s p p' q q', c * c + s * s == 1 ->
+    simL c s 0 0 p p' -> simL c s 0 0 q q' -> simL c s 0 0 (sh_clip Qops p q) (sh_clip Qops p' q').
+Proof. exact clip_rotate_lemma. Qed.
+
+(* ... and the area of a polygon is unchanged by a rigid motion *)
+Theorem shoelace_rigid_motion :
+  forall a b dx dy, 0 < a * a + b * b -> forall l l', simL a b dx dy l l' ->
+    shoelace Qops l' == (a * a + b * b) * shoelace Qops l.
+Proof. exact shoelace_sim. Qed.
+
+(* IoU (with its None case, and the too_far pre-check inside) is unchanged when both boxes are translated or
+   rotated together *)
+Theorem iou_rigid_motion_invariant :
+  forall a b dx dy (l l' r r' : qbox), a * a + b * b == 1 ->
+    moved a b dx dy l l' -> moved a b dx dy r r' -> oeq (iou Qops l' r') (iou Qops l r).
+Proof. exact iou_rigid_motion_lemma. Qed.
+
+(* a rectangle clipped by itself is itself (equality of vertex lists), hence IoU = 1 for identical boxes *)
+Theorem clip_self :
+  forall b : qbox, valid_box b ->
+    sh_clip Qops (rect_vertices Qops b) (rect_vertices Qops b) = rect_vertices Qops b.
+Proof. exact clip_self_lemma. Qed.
+
+Theorem iou_identical_is_one :
+  forall b : qbox, valid_box b -> unit_dir b -> exists v, iou Qops b b = Some v /\ v == 1.
+Proof. exact iou_identical_lemma. Qed.
+
+(* every vertex of the clipped polygon satisfies all half-plane constraints of the clip polygon and every half-plane
+   constraint that all subject vertices satisfy: the reported region is never outside the true intersection
+   (for ANY subject and clip vertex lists) *)
+Theorem clip_vertices_inside :
+  forall (subj clip : list qpt) v, In v (sh_clip Qops subj clip) ->
+    (forall e, In e (edges Qops clip) -> crossq (fst e) (snd e) v <= 0) /\
+    (forall u w, (forall x, In x subj -> crossq u w x <= 0) -> crossq u w v <= 0).
+Proof. exact clip_vertices_inside_lemma. Qed.
+
+(* the crossing point computed along the subject segment (commit 04617aa) is the point of the former line-line
+   formula, whenever the clipper calls it (end points classified differently) *)
+Theorem compute_intersection_is_line_intersection :
+  forall s e cs ce : qpt, sides_differ s e cs ce ->
+    peq (compute_intersection_lines Qops s e cs ce) (compute_intersection Qops s e cs ce).
+Proof. exact compute_intersection_lines_eq. Qed.
+
+(* axis-aligned closed form (BoundingBox::intersection) *)
+Theorem aa_inter_sym : forall l r, aa_inter Qops l r == aa_inter Qops r l.
+Proof. exact aa_inter_sym_lemma. Qed.
+
+Theorem aa_inter_range :
+  forall l r, valid_ltwh l -> valid_ltwh r ->
+    0 <= aa_inter Qops l r /\ aa_inter Qops l r <= aa_area l /\ aa_inter Qops l r <= aa_area r.
+Proof. exact aa_inter_range_lemma. Qed.
+
+Theorem aa_iou_in_unit_interval :
+  forall l r, valid_ltwh l -> valid_ltwh r -> 0 <= aa_iou Qops l r <= 1.
+Proof. exact aa_iou_range_lemma. Qed.
+
+Theorem aa_inter_zero_iff_no_overlap :
+  forall l r, valid_ltwh l -> valid_ltwh r ->
+    (aa_inter Qops l r == 0 <-> ~ exists x y, in_open l x y /\ in_open r x y).
+Proof. exact aa_inter_zero_iff_lemma. Qed.
+
+Theorem aa_iou_identical : forall r, valid_ltwh r -> aa_iou Qops r r == 1.
+Proof. exact aa_iou_identical_lemma. Qed.
+
+(* when neither box is rotated the clipped area coincides with the closed form *)
+Theorem clip_axis_aligned_eq_closed_form :
+  forall l r : qbox, valid_box l -> valid_box r -> unrotated l -> unrotated r ->
+    clip_area Qops (rect_vertices Qops l) (rect_vertices Qops r) == aa_inter Qops (to_ltwh Qops l) (to_ltwh Qops r).
+Proof. exact clip_axis_aligned_lemma. Qed.
+
+(* the cheap pre-check: symmetric, and never true for two boxes that share a point *)
+Theorem too_far_sym : forall l r : qbox, too_far Qops l r = too_far Qops r l.
+Proof. exact too_far_sym_lemma. Qed.
+
+Theorem too_far_sound :
+  forall (l r : qbox) p, valid_box l -> valid_box r -> unit_dir l -> unit_dir r ->
+    in_rect l p -> in_rect r p -> too_far Qops l r = false.
+Proof. exact too_far_sound_lemma. Qed.
+
+(* the executable test is the squared, sqrt-free form (over Q) ... *)
+Theorem too_far_squared_form :
+  forall l r : qbox, too_far Qops l r = true <->
+    0 < dist2q l r - radius2q l - radius2q r /\
+    4 * radius2q l * radius2q r < (dist2q l r - radius2q l - radius2q r) * (dist2q l r - radius2q l - radius2q r).
+Proof. exact too_far_iff. Qed.
+
+(* ... of the code's  x*x + y*y > (r_l + r_r)^2  with r = sqrt(radius2) (over R) *)
+Theorem too_far_sqrt_form :
+  forall d2 r1 r2 : R, (0 <= r1)%R -> (0 <= r2)%R ->
+    ((sqrt r1 + sqrt r2) * (sqrt r1 + sqrt r2) < d2 <->
+     (0 < d2 - r1 - r2 /\ 4 * r1 * r2 < (d2 - r1 - r2) * (d2 - r1 - r2)))%R.
+Proof. exact too_far_sqrt_form_lemma. Qed.
+
+(* PARTIAL (see the header): what is proved of "the reported area is the true area" *)
+Theorem iou_exact_partial :
+  forall l r : qbox, valid_box l -> valid_box r ->
+    (forall v, In v (sh_clip Qops (rect_vertices Qops l) (rect_vertices Qops r)) -> in_rect l v /\ in_rect r v) /\
+    (unrotated l -> unrotated r ->
+     clip_area Qops (rect_vertices Qops l) (rect_vertices Qops r) == aa_inter Qops (to_ltwh Qops l) (to_ltwh Qops r)) /\
+    (unit_dir l -> inter_area Qops l l == box_area Qops l).
+Proof. exact iou_exact_partial_lemma. Qed.
+
+(* Non-vacuity: the unit test of bbox.rs (two 1 x 2 boxes at right angles, cos/sin of a 3-4-5 triangle instead of
+   angle 2.0) and a pair of unrotated boxes; the model's area agrees with the independent reference. *)
+Example c08_nonvacuous :
+  let a := mkbox (num:=Qops) 0 0 (3 # 5) (4 # 5) (1 # 2) 2 in
+  let b := mkbox (num:=Qops) 0 0 (- (4 # 5)) (3 # 5) (1 # 2) 2 in
+  let c := mkbox (num:=Qops) (1 # 2) (1 # 2) 1 0 1 2 in
+  let d := mkbox (num:=Qops) 0 0 1 0 1 2 in
+  valid_box a /\ unit_dir a /\ unit_dir b /\
+  iou Qops a b = Some (1 # 3) /\
+  inter_area Qops a b = inter_area_ref Qops (rect_vertices Qops a) (rect_vertices Qops b) /\
+  iou Qops c d = Some (9 # 23) /\
+  aa_inter Qops (to_ltwh Qops c) (to_ltwh Qops d) = 9 # 4 /\
+  too_far Qops a (mkbox (num:=Qops) 10 0 1 0 (1 # 2) 2) = true.
+Proof. cbv zeta. repeat split; vm_compute; reflexivity. Qed.
